@@ -19,11 +19,40 @@ fn log(s: String) {
     LOG.lock().unwrap().push(s);
 }
 
-#[derive(Clone, Debug, PartialEq)]
+/// live instances of `Big` (created + cloned - dropped)
+pub static LIVE_BIG: std::sync::atomic::AtomicI64 = std::sync::atomic::AtomicI64::new(0);
+/// drops of an already dropped `Big`
+pub static BAD_BIG: std::sync::atomic::AtomicI64 = std::sync::atomic::AtomicI64::new(0);
+
+#[derive(Debug, PartialEq)]
 pub struct Big {
     a: u64,
     b: u32,
     c: u64,
+}
+impl Big {
+    fn new(x: u32) -> Big {
+        LIVE_BIG.fetch_add(1, std::sync::atomic::Ordering::SeqCst);
+        Big { a: x as u64 + 1, b: x, c: !(x as u64) }
+    }
+}
+impl Clone for Big {
+    fn clone(&self) -> Big {
+        if self.a != self.b as u64 + 1 {
+            BAD_BIG.fetch_add(1, std::sync::atomic::Ordering::SeqCst);
+        }
+        Big::new(self.b)
+    }
+}
+impl Drop for Big {
+    fn drop(&mut self) {
+        if self.a != self.b as u64 + 1 {
+            BAD_BIG.fetch_add(1, std::sync::atomic::Ordering::SeqCst);
+        }
+        LIVE_BIG.fetch_sub(1, std::sync::atomic::Ordering::SeqCst);
+        // poison: a second drop or a use after drop is noticed
+        unsafe { std::ptr::write_volatile(&mut self.a, 0xDEAD_0000_0000) };
+    }
 }
 #[derive(Clone, Copy, Debug, PartialEq)]
 pub struct Pt(u8, u8, u8);
@@ -35,12 +64,12 @@ pub fn runtime() -> Runtime<NoCtx> {
         /// 3-byte registered Copy type, align 1
         #[copy] type Pt = Val<Pt>;
         /// make one
-        fn mk_big(x: u32) -> Val<Big> { Val(Big { a: x as u64 + 1, b: x, c: !(x as u64) }) }
+        fn mk_big(x: u32) -> Val<Big> { Val(Big::new(x)) }
         /// make one
         fn mk_pt(x: u8) -> Val<Pt> { Val(Pt(x, x.wrapping_add(1), !x)) }
         /// emit
         fn emit_big(v: Val<Big>) {
-            let v = v.0;
+            let v = &v.0;
             assert!(v.a == v.b as u64 + 1 && v.c == !(v.b as u64), "corrupted Big {v:?}");
             log(format!("i:{}", v.b))
         }
@@ -932,6 +961,25 @@ impl<'a> Gen<'a> {
                 return;
             }
             let t = self.vars[v].ty.clone();
+            if self.p.chance(1, 2) {
+                // two values that differ in exactly one (random) component:
+                // an equality that skips or misplaces a component says `equal`
+                let a = self.build0(&t, 3);
+                let n = leaves(&a);
+                if n > 0 {
+                    let mut k = self.p.below(n as u64) as isize;
+                    let b = near(&a, &mut k);
+                    let ann = t.src(&self.env);
+                    let va = self.new_var(t.clone(), None);
+                    out.push(S::Let(va, Some(ann.clone()), a));
+                    let vb = self.new_var(t.clone(), None);
+                    out.push(S::Let(vb, Some(ann), b));
+                    out.push(S::Emit(E::Eq(false, Box::new(E::Var(va)), Box::new(E::Var(vb))), T::Bool));
+                    out.push(S::Emit(E::Eq(true, Box::new(E::Var(vb)), Box::new(E::Var(va))), T::Bool));
+                    self.kinds.insert("eq-near-copy");
+                    return;
+                }
+            }
             let other = self.build(&t, 2);
             let neg = self.p.chance(1, 3);
             out.push(S::Emit(E::Eq(neg, Box::new(E::Var(v)), Box::new(other)), T::Bool));
@@ -939,6 +987,54 @@ impl<'a> Gen<'a> {
         } else {
             out.extend(self.emit_var(v));
         }
+    }
+}
+
+/// number of literal leaves of a construction expression
+fn leaves(e: &E) -> usize {
+    match e {
+        E::Lit(_) | E::BLit(_) | E::Str(_) | E::Opaque(..) => 1,
+        E::Rec(_, fs) => fs.iter().map(|(_, x)| leaves(x)).sum(),
+        E::Enm(_, _, fs) | E::Lst(fs) => fs.iter().map(leaves).sum(),
+        E::Host(_, x) | E::Pass(_, x) => leaves(x),
+        _ => 0,
+    }
+}
+
+/// the same construction with its `k`-th literal leaf changed: a value that
+/// differs from the original in exactly one component
+fn near(e: &E, k: &mut isize) -> E {
+    match e {
+        E::Lit(_) | E::BLit(_) | E::Str(_) | E::Opaque(..) => {
+            *k -= 1;
+            if *k != -1 {
+                return e.clone();
+            }
+            match e {
+                E::Lit(v) => E::Lit(if v.rem_euclid(2) == 0 || v - 1 < -(i64::MAX as i128) { v + 1 } else { v - 1 }),
+                E::BLit(b) => E::BLit(!b),
+                E::Str(s) => E::Str(format!("{s}x")),
+                E::Opaque(a, _) => match *a {
+                    "1.5" => E::Opaque("-2.25", "-2.25"),
+                    "0.0" | "-2.25" | "1000000.0" => E::Opaque("1.5", "1.5"),
+                    "'a'" => E::Opaque("'Z'", "Z"),
+                    "'Z'" | "'é'" | "'0'" => E::Opaque("'a'", "a"),
+                    "AS0" => E::Opaque("AS65000", "AS65000"),
+                    "AS65000" | "AS4294967295" => E::Opaque("AS0", "AS0"),
+                    "1.2.3.4" => E::Opaque("::1", "::1"),
+                    "::1" | "255.255.255.255" | "2001:db8::1" => E::Opaque("1.2.3.4", "1.2.3.4"),
+                    "10.0.0.0 / 8" => E::Opaque("0.0.0.0 / 0", "0.0.0.0/0"),
+                    _ => E::Opaque("10.0.0.0 / 8", "10.0.0.0/8"),
+                },
+                _ => unreachable!(),
+            }
+        }
+        E::Rec(n, fs) => E::Rec(n.clone(), fs.iter().map(|(f, x)| (f.clone(), near(x, k))).collect()),
+        E::Enm(c, t, fs) => E::Enm(c.clone(), *t, fs.iter().map(|x| near(x, k)).collect()),
+        E::Lst(fs) => E::Lst(fs.iter().map(|x| near(x, k)).collect()),
+        E::Host(f, x) => E::Host(f, Box::new(near(x, k))),
+        E::Pass(f, x) => E::Pass(*f, Box::new(near(x, k))),
+        other => other.clone(),
     }
 }
 
@@ -1473,8 +1569,22 @@ fn run_case(script: &str, specs: &[String], args: &[Args], sig: &str, rt: &Runti
     let mut all_ok = true;
     for (a, sp) in args.iter().zip(specs) {
         LOG.lock().unwrap().clear();
+        let live_before = LIVE_BIG.load(std::sync::atomic::Ordering::SeqCst);
         let r = std::panic::catch_unwind(std::panic::AssertUnwindSafe(|| f.call(a.0, a.1, a.2, a.3, a.4, a.5, a.6)));
         let got = LOG.lock().unwrap().join(",");
+        let live_after = LIVE_BIG.load(std::sync::atomic::Ordering::SeqCst);
+        let bad = BAD_BIG.swap(0, std::sync::atomic::Ordering::SeqCst);
+        // (a value pushed into a list that lives in a `const` legitimately outlives the call)
+        let retains = sig.contains("const-item") || script.contains("\nconst ");
+        if r.is_ok() && ((live_after != live_before && !retains) || bad != 0) {
+            crate::viol(
+                rep,
+                "registered Clone values are not released exactly once: after `main` returned the number of live host values changed, or a dead one was touched",
+                "drop-balance",
+                input(json!({"live_before": live_before, "live_after": live_after, "touched_dead": bad, "statement_kinds": sig})),
+            );
+            return;
+        }
         if r.is_err() {
             crate::viol(rep, "running the script panicked", "run-panic", input(json!(null)));
             return;
